@@ -398,4 +398,101 @@ def r14_6(ctx):
     return o
 
 
-RULES = [r14_1, r14_2, r14_3, r14_4, r14_5, r14_6]
+def r14_7(ctx):
+    """S: consistency of two constants.  The Newton search snaps exact parameters to fractions with denominators <= N
+    (`limit_denominator(N)`); neighbouring fractions of that grid are at least 1/N^2 apart.  A candidate is accepted when
+    the two curve points are within `tol` of each other, and candidates are merged when their parameters are within
+    `tol`: with tol < 1/N^2 a crossing whose parameter is not on the grid can never be accepted (resp. its rounded copies
+    are never merged).  Decided: tol * N^2 >= 1 for every tolerance handed to filter_distance / filter_parameters."""
+    from verifkit import pat
+    out = Outcome("R14.7", "the tolerances with which crossing candidates of curved segments are accepted and merged are not "
+                           "finer than the grid their parameters are snapped to (tol * N^2 >= 1 for limit_denominator(N))",
+                  floor=2)
+    fn = ctx.fn("curve.PlanarCurve.__and__")
+    inf = ctx.inf(fn.qname)
+    seen, todo = set(), [fn.qname]
+    while todo:
+        q = todo.pop()
+        if q in seen or q not in ctx.model.funcs or not q.startswith("curve."):
+            continue
+        seen.add(q)
+        todo += list(ctx.graph.callees(q))
+    caps = []
+    for q in sorted(seen):
+        g = ctx.model.funcs[q]
+        for n in ast.walk(g.node):
+            if isinstance(n, ast.Call) and isinstance(n.func, ast.Attribute) and n.func.attr == "limit_denominator":
+                a = n.args[0] if n.args else None
+                v = 10 ** 6 if a is None else _const(ctx, g, a)
+                caps.append((q, n, v))
+    defs = pat.local_defs(fn)
+    sites = []
+    for n in ast.walk(fn.node):
+        if isinstance(n, ast.Call):
+            for t in inf.targets(n, ("call",)):
+                if t.qname in ("curve.Intersection.filter_distance", "curve.Intersection.filter_parameters"):
+                    ps = [a.arg for a in t.node.args.posonlyargs + t.node.args.args]
+                    tolname = ps[-1]
+                    idx = len(ps) - 1
+                    a = n.args[idx] if idx < len(n.args) else next((k.value for k in n.keywords if k.arg == tolname), None)
+                    if a is None and t.node.args.defaults:
+                        a = t.node.args.defaults[-1]
+                    sites.append((n, t.name, a))
+    if not sites:
+        out.undecided(fn.qname, "no call of filter_distance / filter_parameters found", where=fn.where())
+        return out
+    if not caps:
+        for n, name, a in sites:
+            out.ok(fn.qname, f"{name}: parameters are not snapped to a grid", where=fn.where(n))
+        return out
+    if any(v is None for _, _, v in caps):
+        q, n, _ = next(c for c in caps if c[2] is None)
+        out.undecided(q, f"denominator cap `{U(n)[:40]}` is not a constant", where=ctx.model.funcs[q].where(n))
+        return out
+    N = min(v for _, _, v in caps)
+    for n, name, a in sites:
+        tol = None
+        if a is not None:
+            tol = _const(ctx, fn, a)
+            if tol is None and isinstance(a, ast.Name):
+                vals = [_const(ctx, fn, v) for v in defs.get(a.id, []) if not isinstance(v, tuple)]
+                if vals and all(v is not None for v in vals):
+                    tol = min(vals)
+        if tol is None:
+            out.undecided(fn.qname, f"tolerance of {name} is not a constant", where=fn.where(n))
+        elif tol * N * N < 1:
+            out.bad(fn.qname, f"{name} works with a tolerance finer than the grid the Newton parameters are snapped to",
+                    where=fn.where(n), detail=f"tolerance {tol}, parameters rounded by limit_denominator({N}): neighbouring "
+                                              f"grid values are {1 / (N * N):g} apart, so a crossing whose parameter is not on "
+                                              f"the grid is never accepted / its rounded copies are never merged")
+        else:
+            out.ok(fn.qname, f"{name}: tolerance {tol} >= 1/{N}^2", where=fn.where(n))
+    return out
+
+
+def _const(ctx, fn, e):
+    """numeric value of a literal, a module constant, or a class constant read as Class.X / self.X / cls.X"""
+    from verifkit import pat
+    v = pat.const_value(e)
+    if v is not None:
+        return v
+    M = ctx.model
+    if isinstance(e, ast.Name):
+        return pat.module_consts(M.modules.get(fn.mod)).get(e.id)
+    if isinstance(e, ast.Attribute) and isinstance(e.value, ast.Name):
+        cls = fn.cls if e.value.id in ("self", "cls") else e.value.id
+        for k in ([cls] + M.mro(cls)[1:] if cls in M.classes else []):
+            if e.attr in M.class_consts.get(k, {}):
+                return pat.const_value(M.class_consts[k][e.attr])
+    return None
+
+
+def r14_8(ctx):
+    from rules import C17
+    o = C17.r17_3(ctx)
+    o.rule = "R14.8"
+    o.text = ("the boxes used as quick rejects enclose what they stand for: the box of a segment / closed curve / shape contains every point of it, interior extrema of curved pieces included (same analysis as R17.3)")
+    return o
+
+
+RULES = [r14_1, r14_2, r14_3, r14_4, r14_5, r14_6, r14_7, r14_8]
